@@ -134,3 +134,23 @@ pub fn reset() {
     LIVE_BYTES.store(0, Relaxed);
     OVERFLOW.store(false, Relaxed);
 }
+
+/// RAII: allocation tracking is off while the guard lives
+pub struct NoTrack(bool);
+impl NoTrack {
+    #[inline]
+    pub fn new() -> Self {
+        NoTrack(track(false))
+    }
+}
+impl Default for NoTrack {
+    fn default() -> Self {
+        Self::new()
+    }
+}
+impl Drop for NoTrack {
+    #[inline]
+    fn drop(&mut self) {
+        track(self.0);
+    }
+}
